@@ -40,11 +40,11 @@ static std::pair<std::string, std::string> run_case(const Case &c, bool *outstan
         g_obs->completes.push_back({uri, tag});
     };
     vdrv::HandOver ho; size_t qoff = 0, soff = 0; int step_no = 0;
-    std::vector<int> first_req_step(c.rq_starts.size(), -1), first_res_step(c.rs_starts.size(), -1), line_end_step(c.rq_starts.size(), -1);
+    std::vector<int> first_req_step(c.rq_starts.size(), -1), first_res_step(c.rs_starts.size(), -1), line_end_step(c.rq_starts.size(), -1), aligned_step(c.rq_starts.size(), -1);
     std::vector<size_t> line_end(c.rq_starts.size()); for (size_t j = 0; j < c.rq_starts.size(); j++) { size_t e = c.rq.find('\n', c.rq_starts[j]); line_end[j] = e == std::string::npos ? c.rq.size() - 1 : e; }
     for (auto &st : c.steps) {
         step_no++;
-        if (st.kind == '>') { size_t n = std::min(st.n, c.rq.size() - qoff); for (size_t j = 0; j < c.rq_starts.size(); j++) { if (first_req_step[j] < 0 && c.rq_starts[j] >= qoff && c.rq_starts[j] < qoff + n) first_req_step[j] = step_no; if (line_end_step[j] < 0 && line_end[j] >= qoff && line_end[j] < qoff + n) line_end_step[j] = step_no; } ho.apply(ss, vdrv::Op::req(c.rq.substr(qoff, n))); qoff += n; }
+        if (st.kind == '>') { size_t n = std::min(st.n, c.rq.size() - qoff); for (size_t j = 0; j < c.rq_starts.size(); j++) { if (first_req_step[j] < 0 && c.rq_starts[j] >= qoff && c.rq_starts[j] < qoff + n) { first_req_step[j] = step_no; if (c.rq_starts[j] == qoff && n > 0 && ho.pending[0].empty()) aligned_step[j] = step_no; } if (line_end_step[j] < 0 && line_end[j] >= qoff && line_end[j] < qoff + n) line_end_step[j] = step_no; } ho.apply(ss, vdrv::Op::req(c.rq.substr(qoff, n))); qoff += n; }
         else if (st.kind == '<') { size_t n = std::min(st.n, c.rs.size() - soff); for (size_t j = 0; j < c.rs_starts.size(); j++) if (first_res_step[j] < 0 && c.rs_starts[j] >= soff && c.rs_starts[j] < soff + n) first_res_step[j] = step_no; ho.apply(ss, vdrv::Op::res(c.rs.substr(soff, n))); soff += n; }
         else if (st.kind == 'D') ss.destroy_complete(); else ss.tx_freed();
     }
@@ -68,14 +68,16 @@ static std::pair<std::string, std::string> run_case(const Case &c, bool *outstan
     // "started" is ambiguous below line granularity (libhtp creates the transaction once the first line of the next request is
     // complete): the flag MUST be set when some request's whole first line was offered before the first byte of the previous
     // response, MUST NOT be set when every request's first byte was offered after it; in between either is accepted.
-    bool must_set = false, may_set = false; *outstanding2 = false;
+    bool must_set = false, may_set = false, must_by_alignment = false; *outstanding2 = false;
     for (size_t j = 1; j < N; j++) {
         if (first_req_step[j] >= 0 && (first_res_step[j - 1] < 0 || first_req_step[j] < first_res_step[j - 1])) may_set = true;
         if (line_end_step[j] >= 0 && (first_res_step[j - 1] < 0 || line_end_step[j] < first_res_step[j - 1])) must_set = true;
+        // a request whose first byte opens a call (the previous request ended exactly with the previous call) is "started" by that call, however little of its first line the call carries
+        if (aligned_step[j] >= 0 && (first_res_step[j - 1] < 0 || aligned_step[j] < first_res_step[j - 1])) { must_set = true; must_by_alignment = true; }
     }
     *outstanding2 = must_set;
     bool got = (flags_before_close & HTP_CONN_PIPELINED) != 0;
-    if (must_set && !got) return {"pipelined_flag_missing", "HTP_CONN_PIPELINED is not set although the complete first line of a request was offered before the response to the previous request had begun"};
+    if (must_set && !got) return {"pipelined_flag_missing", std::string("HTP_CONN_PIPELINED is not set although ") + std::string(must_by_alignment ? "a call that begins with the first byte of a request" : "the complete first line of a request") + " was offered before the response to the previous request had begun"};
     if (!may_set && got) return {"pipelined_flag_spurious", "HTP_CONN_PIPELINED is set although every request was started only after the response to the previous request had begun"};
     return {"", ""};
     };
